@@ -32,8 +32,15 @@ func init() {
 	seqStub := []string{"none needed (single client; disk = in-memory SimFile/SimReader where a restart is generated)"}
 	register(&PropDef{
 		ID: "C01", Quick: 8000, Thorough: 400000, Level: "exploration",
-		Rule: "single-client histories of insert/put/merge/delete/reuse over a swarm-drawn schema (all column kinds, merge variants, late columns), capacity and block layout (prefilled sparse/nearly-full blocks); after every step the full state read through Row/Txn/Any readers is compared with the model; " + ruleSeq,
+		Rule: "single-client histories of insert/put/merge/delete/reuse over a swarm-drawn schema (all column kinds, merge variants, late columns), capacity and block layout (prefilled sparse/nearly-full blocks); after every step the full state read through Row/Txn/Any readers is compared with the model; every fourth run (part B) has 2-4 concurrent writers under the controlled scheduler: the value most recently committed is the last store in block-latch order, compared by readers under the read latch and by the full dump at quiescence; " + ruleSeq,
 		Gen: func(seed uint64, run int, tier string) *Case {
+			if run%4 == 3 {
+				// part B: "most recently committed" under concurrent writers is the last store in
+				// block-latch order; readers compare under the read latch, the full dump at quiescence
+				return genConc("C01", seed, run, concProfile{minWriters: 2, maxWriters: 4, minReaders: 0, maxReaders: 1, maxTxns: 3, maxOps: 4,
+					wUpdate: 10, wMerge: 4, wInsert: 3, wDeleteOwn: 2, wRangeRead: 1, wRangeWrite: 2, wPointRead: 2,
+					pAbort: 0.1, multiBlock: 0.5, maxCols: 10, stableRows: [2]int{2, 8}}, knownAvoid("C01", seed, run))
+			}
 			p := seqProfile{minSteps: 4, maxSteps: 30, wTxn: 20, wCreateCol: 2, wDropCol: 1,
 				wInsert: 8, wAt: 8, wRange: 3, wDelete: 3, wDeleteAll: 1,
 				pAbort: 0.05, pMerge: 0.35, maxCols: 12, multiBlock: 0.5}
@@ -49,7 +56,12 @@ func init() {
 			}
 			return cs
 		},
-		Exec: func(cs *Case) *World { return runSeq(cs, seqOracles{dump: true}) },
+		Exec: func(cs *Case) *World {
+			if cs.World == "conc" {
+				return runConc(cs, concOracles{})
+			}
+			return runSeq(cs, seqOracles{dump: true})
+		},
 		Real: realComponents, Stub: seqStub,
 	})
 	register(&PropDef{
